@@ -150,7 +150,7 @@ func init() {
 		n, h := vc.arrHeap(st, sortInt)
 		vc.setHeap(st, n, Store(h, r, App(ST.ArrayOf(sortInt, sortInt), "str2arr", cur)))
 		ln := App(sortInt, "strlen", cur)
-		st.strConvs = append(st.strConvs[:len(st.strConvs):len(st.strConvs)], strConv{ref: r, str: cur})
+		st.strConvs = append(st.strConvs[:len(st.strConvs):len(st.strConvs)], strConv{ref: r, str: cur, borrowed: strings.HasSuffix(c.Value.Name(), "Key")})
 		// a key of the space the iterator walks is fmt.Sprintf(prefix+"%s", x) for exactly one x, and x is what is
 		// left of the key once the prefix is cut off (stated for this key only)
 		if id, ok := vc.iterPid[it.S]; ok {
@@ -172,6 +172,7 @@ func init() {
 		}
 		return mkSlice(r, IntLit(0), ln, ln)
 	}
+	kvModels[lib+".Item).KeyCopy"] = kvModels[lib+".Item).Key"] // same bytes, in an array of the caller's own
 	kvModels[lib+".Item).Value"] = kvItemValue
 }
 
